@@ -350,8 +350,9 @@ def main(argv):
         assumptions=meta.get("assumptions", []),
         wall_s=wall, violations=len(new_violations),
     )
-    os.makedirs(os.path.join(VERIF, "evidence"), exist_ok=True)
-    json.dump(ev, open(os.path.join(VERIF, "evidence", f"{pid}.json"), "w"), indent=1, default=str)
+    evdir = os.path.join(VERIF, "evidence") if os.path.realpath(REPO) == "/repo" else "/dev/shm/verif_scratch_evidence"
+    os.makedirs(evdir, exist_ok=True)       # runs against a scratch copy (development aid) never touch the evidence
+    json.dump(ev, open(os.path.join(evdir, f"{pid}.json"), "w"), indent=1, default=str)
     print(f"{pid} {tier}: configs={len(results)} paths={evaluations} obligations={tot('obligations')} discharged={tot('discharged')} "
           f"queries={tot('queries')} solver_s={ev['coverage']['solver_s']} tv_cases={tv['cases']} known={sorted(known_hits)} "
           f"new_violations={len(new_violations)} wall={wall}s")
